@@ -52,6 +52,23 @@ Example C07_f10_regression :
     Some [("ser_S", PCustom (JStr "a")); ("ser_S", PCustom (JInt 2))].
 Proof. vm_compute. repeat split. Qed.
 
+(* ---- custom operation builder arguments (custom_arguments.py, finding F15): serialize is applied to the whole
+        argument; right when the type has no list wrapper, refuted for lists ---- *)
+Definition C07_custom_args_full : Prop := forall S t v log,
+  occ_ser S t false v = Some log -> custom_arg_log S t v = log.
+
+Theorem C07_custom_args_partial : forall S t v log,
+  has_list t = false -> occ_ser S t false v = Some log -> custom_arg_log S t v = log.
+Proof. exact custom_args_no_list. Qed.
+Print Assumptions C07_custom_args_partial.
+
+Theorem C07_custom_args_refuted_list : ~ C07_custom_args_full.
+Proof.
+  intro H. specialize (H SS (TList (TNamed "S")) (PList [PCustom (JStr "a"); PNone]) _ eq_refl).
+  vm_compute in H. discriminate.
+Qed.
+Print Assumptions C07_custom_args_refuted_list.
+
 (* ---- imports ---- *)
 Theorem C07_imports_complete : forall c nm m o,
   In nm (names_to_import c) -> split_dotted nm = (Some m, o) -> In (m, [o]) (scalar_imports c).
